@@ -73,6 +73,7 @@ KINDS = {
     "notfound": "/no-such-thing",
     "gophermap": "/gm",
     "stale-links": "/stale",
+    "hidden-twice": "/meta2",
     "url": "URL:http://example.org/x",
     "pyg": "/hello.pyg",
 }
@@ -152,6 +153,12 @@ def make_spec(bigsize=9000, nmsg=3, ndocs=4):
     spec.append({"p": "stale/.names", "k": "file",
                  "d": "Path=./gone.txt\nName=Gone but titled\nNumb=1\n\nPath=./hidden-and-gone\nType=X\n\n"
                       "Path=./untitled-and-gone\nNumb=2\n"})
+    # repeated metadata: the same file hidden by two link-file blocks
+    spec.append({"p": "meta2", "k": "dir"})
+    spec.append({"p": "meta2/shown.txt", "k": "file", "d": "shown\n"})
+    spec.append({"p": "meta2/twice.txt", "k": "file", "d": "hidden twice\n"})
+    spec.append({"p": "meta2/.names", "k": "file", "d": "Path=./twice.txt\nType=X\n"})
+    spec.append({"p": "meta2/.links", "k": "file", "d": "Path=./twice.txt\nType=X\n"})
     spec.append({"p": "docs/sub", "k": "dir"})
     spec.append({"p": "docs/sub/deep.txt", "k": "file", "d": "deep\n"})
     spec.append({"p": "docs/empty.txt", "k": "file", "d": ""})
